@@ -7,6 +7,7 @@ import (
 	"encoding/json"
 	"fmt"
 	"io"
+	"reflect"
 	"sort"
 	"strings"
 	"sync"
@@ -29,7 +30,10 @@ func init() { vh.Register("C16", runC16) }
 
 // option types: 0 = node takes no option (lambda built without options: unreachableOption),
 // 1..4 = lambda option types A..D (struct, struct, func, pointer), 5 = model.Option,
-// 6 = retriever.Option.
+// 6 = retriever.Option; 7 = `any` and 8 = c16OptI (a small interface): lambdas whose declared
+// option type is an interface type – no Option has such a type, the type of an Option is the
+// dynamic type of its values; 9 = c16OptE, a struct that implements c16OptI (tags as in
+// Model/C16.lean: tyAny, tyIface, tyImpl).
 const (
 	c16TyNone = 0
 	c16TyA    = 1
@@ -38,7 +42,15 @@ const (
 	c16TyD    = 4
 	c16TyM    = 5
 	c16TyR    = 6
+	c16TyAny  = 7
+	c16TyI    = 8
+	c16TyE    = 9
 )
+
+// the concrete option types (what an Option can carry)
+var c16ConcreteTys = []int{c16TyA, c16TyB, c16TyC, c16TyD, c16TyM, c16TyR, c16TyE}
+
+func c16IsIfaceTy(t int) bool { return t == c16TyAny || t == c16TyI }
 
 type c16Node struct {
 	K    string    `json:"k"` // comp | pass | graph
@@ -119,6 +131,57 @@ type c16OptB struct{ ID int }
 type c16OptC func(ids *[]int)
 type c16BoxD struct{ ID int }
 type c16OptD *c16BoxD
+
+// c16OptI: a small interface used as the declared option type of a lambda; c16OptE implements it
+type c16OptI interface{ OptID() int }
+type c16OptE struct{ ID int }
+
+func (e c16OptE) OptID() int { return e.ID }
+
+// c16AnyIDs: the ids of option values of whatever type a lambda declared with an interface
+// option type is handed (nothing, on a correct implementation)
+func c16AnyIDs(vs []any) []int {
+	ids := make([]int, 0, len(vs))
+	for _, v := range vs {
+		switch o := v.(type) {
+		case c16OptA:
+			ids = append(ids, o.ID)
+		case c16OptB:
+			ids = append(ids, o.ID)
+		case c16OptC:
+			o(&ids)
+		case c16OptD:
+			ids = append(ids, o.ID)
+		case c16OptE:
+			ids = append(ids, o.ID)
+		case model.Option:
+			ids = append(ids, c16ModelIDs([]model.Option{o})...)
+		case retriever.Option:
+			ids = append(ids, c16RetrIDs([]retriever.Option{o})...)
+		default:
+			ids = append(ids, -2)
+		}
+	}
+	return ids
+}
+
+// c16CheckTypeMenu: the `implements` relation the model has built in (Model/C16.lean
+// implementsTy) is the one Go's reflect sees for the menu: every type implements `any`, only
+// c16OptE implements c16OptI.
+func c16CheckTypeMenu() error {
+	it := reflect.TypeOf((*c16OptI)(nil)).Elem()
+	samples := map[int]any{c16TyA: c16OptA{}, c16TyB: c16OptB{}, c16TyC: c16OptC(func(*[]int) {}), c16TyD: c16OptD(&c16BoxD{}),
+		c16TyM: model.WithMaxTokens(1), c16TyR: retriever.WithTopK(1), c16TyE: c16OptE{}}
+	for ty, v := range samples {
+		if got, want := reflect.TypeOf(v).Implements(it), ty == c16TyE; got != want {
+			return fmt.Errorf("C16 type menu: type %d implements c16OptI = %v, the model assumes %v", ty, got, want)
+		}
+		if reflect.TypeOf(v).Kind() == reflect.Interface {
+			return fmt.Errorf("C16 type menu: option type %d is an interface type", ty)
+		}
+	}
+	return nil
+}
 
 type c16RecKey struct{}
 
@@ -204,6 +267,29 @@ func c16Lambda(ty int, path string, out int) *compose.Lambda {
 		})
 	case c16TyD:
 		return compose.InvokableLambdaWithOption(func(ctx context.Context, in any, opts ...c16OptD) (any, error) {
+			ids := make([]int, 0, len(opts))
+			for _, o := range opts {
+				ids = append(ids, o.ID)
+			}
+			c16RecOf(ctx).addVals(path, ids)
+			return c16Output(out), nil
+		})
+	case c16TyAny:
+		return compose.InvokableLambdaWithOption(func(ctx context.Context, in any, opts ...any) (any, error) {
+			c16RecOf(ctx).addVals(path, c16AnyIDs(opts))
+			return c16Output(out), nil
+		})
+	case c16TyI:
+		return compose.InvokableLambdaWithOption(func(ctx context.Context, in any, opts ...c16OptI) (any, error) {
+			ids := make([]int, 0, len(opts))
+			for _, o := range opts {
+				ids = append(ids, o.OptID())
+			}
+			c16RecOf(ctx).addVals(path, ids)
+			return c16Output(out), nil
+		})
+	case c16TyE:
+		return compose.InvokableLambdaWithOption(func(ctx context.Context, in any, opts ...c16OptE) (any, error) {
 			ids := make([]int, 0, len(opts))
 			for _, o := range opts {
 				ids = append(ids, o.ID)
@@ -399,6 +485,8 @@ func c16BuildOption(o *c16Opt) compose.Option {
 					vs = append(vs, c16OptB{ID: id})
 				case c16TyC:
 					vs = append(vs, c16OptC(func(ids *[]int) { *ids = append(*ids, id) }))
+				case c16TyE:
+					vs = append(vs, c16OptE{ID: id})
 				default:
 					vs = append(vs, c16OptD(&c16BoxD{ID: id}))
 				}
@@ -985,6 +1073,39 @@ func c16Stats(ctx *vh.Ctx, c *c16Case, agree bool) {
 		}
 		ctx.Res.Dist("opt=" + k)
 	}
+	// lambdas with an interface option type: are there any, does an undesignated value option pass
+	// them, is a value option designated to one (top level / nested)
+	if len(c.Calls) > 0 {
+		var ts []c16Target
+		c16Targets(c.Calls[0].G, nil, &ts)
+		iface := map[string]int{}
+		for _, t := range ts {
+			if t.kind == "comp" && c16IsIfaceTy(t.ty) {
+				iface[strings.Join(t.path, "/")] = len(t.path)
+			}
+		}
+		if len(iface) > 0 {
+			ctx.Res.Dist("iface.lambda-present")
+			for i := range c.Store {
+				o := &c.Store[i]
+				if len(o.Vals) == 0 {
+					continue
+				}
+				if len(o.Paths) == 0 {
+					ctx.Res.Dist("iface.undesignated-values-pass-by")
+				}
+				for _, p := range o.Paths {
+					if d, ok := iface[strings.Join(p, "/")]; ok {
+						if d == 1 {
+							ctx.Res.Dist("iface.values-designated-to-it/top")
+						} else {
+							ctx.Res.Dist("iface.values-designated-to-it/nested")
+						}
+					}
+				}
+			}
+		}
+	}
 }
 
 func c16ImplTag(n *c16Node) string {
@@ -1091,7 +1212,10 @@ func c16One(ctx *vh.Ctx, c *c16Case, shrink bool) error {
 }
 
 func runC16(ctx *vh.Ctx) error {
-	ctx.Res.Rule = "random chains of nested graphs (depth<=3; lambdas with 6 option types incl. model.Option/retriever.Option, lambdas without option, fake ChatModel/Retriever components, passthrough nodes, reused keys across levels) x 0-5 Options (built in one step, or by sequences of DesignateNode/DesignateNodeWithPath calls deriving several Options from shared bases; undesignated / designated by DesignateNode or DesignateNodeWithPath with 1-3 paths; values or callbacks or empty; valid targets, wrong type, unknown node, path below component/passthrough, empty path) x Invoke/Stream x pregel/dag; single calls, sequences of calls and concurrent calls sharing the same Option values; non-trivial = some node receives a value or a handler, or the call is rejected; distinct by (tree shape with types, option kinds and paths, call index sets)"
+	ctx.Res.Rule = "random chains of nested graphs (depth<=3; lambdas with 7 concrete option types incl. model.Option/retriever.Option, lambdas whose declared option type is an interface type (any, a small custom interface implemented by one of the concrete types), lambdas without option, fake ChatModel/Retriever components, passthrough nodes, reused keys across levels) x 0-5 Options (built in one step, or by sequences of DesignateNode/DesignateNodeWithPath calls deriving several Options from shared bases; undesignated / designated by DesignateNode or DesignateNodeWithPath with 1-3 paths; values or callbacks or empty; valid targets, wrong type, unknown node, path below component/passthrough, empty path) x Invoke/Stream x pregel/dag; single calls, sequences of calls and concurrent calls sharing the same Option values; non-trivial = some node receives a value or a handler, or the call is rejected; distinct by (tree shape with types, option kinds and paths, call index sets)"
+	if err := c16CheckTypeMenu(); err != nil {
+		return err
+	}
 	if ctx.Replay != nil {
 		var c c16Case
 		if err := json.Unmarshal(ctx.Replay, &c); err != nil {
@@ -1106,7 +1230,12 @@ func runC16(ctx *vh.Ctx) error {
 	}
 	n := ctx.N(2500, 60000)
 	for i := 0; i < n && ctx.TimeLeft(); i++ {
-		c := c16Gen(ctx.Rng)
+		var c *c16Case
+		if ctx.Rng.Chance(22) {
+			c = c16GenIface(ctx.Rng)
+		} else {
+			c = c16Gen(ctx.Rng)
+		}
 		if err := c16One(ctx, c, true); err != nil {
 			return err
 		}
